@@ -118,6 +118,7 @@ func intrinsic(name string, args []value) (value, bool) {
 		return nil, true
 	case "zzReach":
 		EX.Witness["reach:"+args[0].(string)]++
+		EX.reached = true
 		return nil, true
 	}
 	return nil, false
